@@ -111,6 +111,10 @@ def gen(seed, tier):
                     if r.random() < 0.2:
                         # the altitude field says "no altitude" (all zero, below 0 ft) or is a Gillham code: the CPR half counts all the same
                         me = (me & ~(0xFFF << 36)) | (r.choice([0, 0x010, 0x030, 0x008, 0x1A2 & ~0x10]) << 36)
+                    if r.random() < 0.1:
+                        # exactly on a zone meridian / parallel: one CPR field is 0 ("not received")
+                        which = r.choice([17, 0])
+                        me &= ~(0x1FFFF << which)
                     segs.append(seg(t, [g.f_df17(icao, me)]))
                     truth.append(("air", parity, round(la, 7), round(lo, 7)))
                     parity ^= 1 if r.random() < 0.85 else 0
